@@ -245,8 +245,16 @@ def check_safe_table(ctx, mod_, cls):
             problems.append('table position %s not advanced after an entry' % pos)
         if '%s = 0' % pos not in body_txt:
             problems.append('table position %s not reset per reaction' % pos)
-        if not any('-np.ones((self.num_reactions, self.num_species, 2)' in t for t in body_txt):
+        alloc = [t for t in body_txt if '-np.ones((self.num_reactions, self.num_species' in t and ', 2)' in t]
+        if not alloc:
             problems.append('table not initialised with the -1 sentinel for (reactions, species, 2)')
+        # a reaction may consume every species: the scan stops only at a -1, so the species axis needs one spare slot
+        # (or the scans must bound their index)
+        room = any('self.num_species + 1, 2)' in t or '1 + self.num_species, 2)' in t for t in alloc)
+        ctx.ob('R6.4-safe-sentinel', cls, room, where,
+               'the requirement list of a reaction always ends in a -1 inside the table: the species axis has num_species + 1 slots',
+               '' if room else 'table allocated as %s: a reaction that consumes every species (e.g. A -> 0 in a one-species model) leaves no terminator and '
+               'the scan `while table[r, s, 0] != -1` reads past the end (bounds checks are off)' % (alloc[0][:90] if alloc else None))
         loops = [src(l.iter) for l in util.find_loops(f) if isinstance(l, ast.For)]
         if loops != ['range(self.num_reactions)', 'range(self.num_species)']:
             problems.append('loops %s do not cover all reactions x species' % loops)
